@@ -913,6 +913,19 @@ def check_text(case):
         if res.exc is not None:
             raise res.exc
         f.expect(res.ok and res.stdout == want, f"conversion/text-{fmt}-{tc}/cli", f"stdin={stream!r} want {want.hex()} :: {res.brief()}")
+        # the same text through every text output format (its own included): the output represents the padded bytes
+        for out in ("hex", "bin"):
+            res = cli_convert(stream, fmt, out)
+            if res.exc is not None:
+                raise res.exc
+            cls.append(f"text:{fmt}>{out}")
+            got = conv.read(res.stdout, out) if res.ok else None
+            whole = res.ok and len(res.stdout.strip()) % (2 if out == "hex" else 8) == 0
+            f.expect(
+                res.ok and got == want and whole,
+                f"conversion/text-{fmt}-{tc}/cli-to-{out}" + ("" if got == want else "/other-bytes") ,
+                f"stdin={stream!r} want {want.hex()} :: {res.brief()}",
+            )
     return cls, f
 
 
@@ -996,6 +1009,8 @@ def targets(tier):
                 "nt:odd-nibbles",
                 "nt:partial-byte",
                 "nt:surrounding-newlines",
+                "text:hex>hex",
+                "text:bin>bin",
             ]
             + [f"pair:{a}>{b}" for a in conv.FORMATS for b in conv.FORMATS],
         ),
